@@ -1237,6 +1237,7 @@ def run(ctx):
     stream_smerge(ctx, 3 if quick else 4)
     stream_pstruct(ctx, 40 if quick else 1200, 3 if quick else 4)
     ctx.extra["model_variant"] = {k: ("repaired" if v else "pinned") for k, v in REPAIRED.items()}
+    ctx.notes = sorted(set(ctx.notes))
     import json
     ctx.violations.sort(key=lambda v: len(json.dumps(v.get("case"), default=str)))      # the smallest failing case of each kind is the replay
     ctx.rule = ("unstructured: hybrid tri/quad, hexahedral, tetrahedral and line meshes (1-18 cells) with shuffled global numbering, exact dyadic "
